@@ -42,6 +42,7 @@ type harness struct {
 	sigs  map[string]int
 	only  map[string]bool
 
+	anteSrc  anteSource     // decorator order read from ante/handler_options.go of the tree under check
 	forceLen map[string]int // precompile stage: forced lengths of array arguments (by ABI input name)
 }
 
@@ -80,6 +81,10 @@ func main() {
 	h.c = lib.NewChain(seed, 2, nil)
 	h.reg = h.c.App.InterfaceRegistry()
 	h.p = newPools(seed)
+	h.anteSrc = readAnteSource()
+	if !h.anteSrc.ok {
+		h.rep.Count("ante-chain:source-not-readable")
+	}
 
 	if os.Getenv("VERIF_MODE") == "replay" && os.Getenv("VERIF_REPLAY") != "" {
 		h.replayFile(os.Getenv("VERIF_REPLAY"))
